@@ -1,3 +1,4 @@
 import HopModel.Props.C14
 import HopModel.Props.C20
 import HopModel.Props.C08
+import HopModel.Props.C11
